@@ -699,7 +699,9 @@ func verifLemmaLegacyWithoutElementMarshals(h Header) (buf []byte, err error) {
 //@   requires v != nil && ctx != nil && 0 <= ctx.offset && ctx.offset <= len(ctx.payload) && len(v.ActiveSpatialLayer) <= 16
 //@   modifies v.HasResolutionAndFramerate, v.ActiveSpatialLayer[*], ctx.offset
 //@   loop 0: invariant walk [C19]: rangeindex <= len(v.ActiveSpatialLayer) - 1 && ctx.offset == old(ctx.offset) + 5 * (rangeindex + 1) && old(ctx.offset) + 5 * len(v.ActiveSpatialLayer) <= len(ctx.payload) && sameSlice(ctx.payload, old(ctx.payload)) && sameSlice(v.ActiveSpatialLayer, old(v.ActiveSpatialLayer)) && v.HasResolutionAndFramerate
+//@   loop 0: invariant values [C19]: forall k :: 0 <= k && k <= rangeindex ==> v.ActiveSpatialLayer[k].Width == be16(ctx.payload, old(ctx.offset) + 5*k) + 1 && v.ActiveSpatialLayer[k].Height == be16(ctx.payload, old(ctx.offset) + 5*k + 2) + 1 && v.ActiveSpatialLayer[k].Framerate == int(ctx.payload[old(ctx.offset) + 5*k + 4])
 //@   ensures consumed [C19]: result0 == nil ==> ctx.offset == old(ctx.offset) + 5 * len(v.ActiveSpatialLayer) && ctx.offset <= len(ctx.payload) && v.HasResolutionAndFramerate
+//@   ensures values [C19]: result0 == nil ==> forall k :: 0 <= k && k < len(v.ActiveSpatialLayer) ==> v.ActiveSpatialLayer[k].Width == be16(ctx.payload, old(ctx.offset) + 5*k) + 1 && v.ActiveSpatialLayer[k].Height == be16(ctx.payload, old(ctx.offset) + 5*k + 2) + 1 && v.ActiveSpatialLayer[k].Framerate == int(ctx.payload[old(ctx.offset) + 5*k + 4])
 //@   ensures short [C19]: result0 != nil ==> ctx.offset == old(ctx.offset) && len(ctx.payload) - ctx.offset < 5 * len(v.ActiveSpatialLayer)
 //@   ensures list_kept [C19]: sameSlice(v.ActiveSpatialLayer, old(v.ActiveSpatialLayer)) && sameSlice(ctx.payload, old(ctx.payload))
 //@ end
